@@ -7,6 +7,7 @@ import (
 	"cosmossdk.io/core/appmodule"
 	"cosmossdk.io/log"
 	abci "github.com/cometbft/cometbft/abci/types"
+	cmttypes "github.com/cometbft/cometbft/types"
 	"github.com/cosmos/cosmos-sdk/baseapp"
 	sdk "github.com/cosmos/cosmos-sdk/types"
 	"github.com/cosmos/cosmos-sdk/types/module"
@@ -51,24 +52,28 @@ func NewProposalHandler(
 	}
 }
 
+// txProtoSize is the size CometBFT charges a block entry against MaxTxBytes.
+func txProtoSize(bz []byte) int64 {
+	return cmttypes.ComputeProtoSizeForTxs([]cmttypes.Tx{bz})
+}
+
 func (h *ProposalHandler) PrepareProposal() sdk.PrepareProposalHandler {
 	return func(ctx sdk.Context, req *abci.PrepareProposalRequest) (*abci.PrepareProposalResponse, error) {
-		defaultHandler := h.DefaultProposalHandler.PrepareProposalHandler()
-		defaultResponse, err := defaultHandler(ctx, req)
-		if err != nil {
-			return nil, err
-		}
-
-		proposalTxs := defaultResponse.Txs
-
 		verifiedData, err := h.keeper.GetSpecificStatusData(ctx, types.Status_STATUS_VERIFIED)
 		if err != nil {
 			return nil, err
 		}
 
+		// The metadata section (splitter + one entry per verified item) counts against
+		// req.MaxTxBytes like every other entry: CometBFT refuses a proposal that exceeds it
+		// and the proposer could then not propose at all. Build it first, within half of the
+		// budget, and let the default handler fill what is left.
+		var metadataTxs [][]byte
+		var metadataSize int64
 		if len(verifiedData) > 0 {
-			proposalTxs = append(proposalTxs, metadataUriSplitter)
-
+			budget := req.MaxTxBytes / 2
+			size := txProtoSize(metadataUriSplitter)
+			entries := [][]byte{metadataUriSplitter}
 			for _, data := range verifiedData {
 				metadataUri := &types.MetadataUriWrapper{
 					MetadataUri: data.MetadataUri,
@@ -78,10 +83,26 @@ func (h *ProposalHandler) PrepareProposal() sdk.PrepareProposalHandler {
 				if err != nil {
 					return nil, fmt.Errorf("failed to marshal metadata uri: %w", err)
 				}
-
-				proposalTxs = append(proposalTxs, metadataUriBz)
+				if size+txProtoSize(metadataUriBz) > budget {
+					break
+				}
+				size += txProtoSize(metadataUriBz)
+				entries = append(entries, metadataUriBz)
+			}
+			if len(entries) > 1 {
+				metadataTxs, metadataSize = entries, size
 			}
 		}
+
+		defaultReq := *req
+		defaultReq.MaxTxBytes = req.MaxTxBytes - metadataSize
+		defaultHandler := h.DefaultProposalHandler.PrepareProposalHandler()
+		defaultResponse, err := defaultHandler(ctx, &defaultReq)
+		if err != nil {
+			return nil, err
+		}
+
+		proposalTxs := append(defaultResponse.Txs, metadataTxs...)
 
 		return &abci.PrepareProposalResponse{Txs: proposalTxs}, nil
 	}
